@@ -153,6 +153,9 @@ func c12Do(w *World, t uint64, d []byte) (uint64, []byte, error) {
 	if t == 13 {
 		return 0, nil, errors.New("unlucky thirteen")
 	}
+	if t == 88 {
+		vs.Block("c12 gate", func() bool { return w.gates[88] }) // a handler that waits for another connection's call
+	}
 	if t == 77 {
 		return 0, nil, nil // a successful reply that is the zero value (encodes to nothing under pb / bytes)
 	}
@@ -276,6 +279,7 @@ type c12Cfg struct {
 	poll, pipe, dio, shared, srvNoCopy bool
 	cliDio, cliPipe, cliNoCopy         bool
 	buf                                int
+	srvDecoy, cliDecoy                 bool // Options carry a name AND a different constructor: the name decides, on both ends
 }
 
 func (c c12Cfg) String() string {
@@ -283,15 +287,31 @@ func (c c12Cfg) String() string {
 }
 
 func (c c12Cfg) opts(n *FakeNet, byName bool, clientBuf int) *rpc.Options {
+	return c.optsDecoy(n, byName, clientBuf, false)
+}
+
+func (c c12Cfg) optsDecoy(n *FakeNet, byName bool, clientBuf int, decoy bool) *rpc.Options {
 	o := &rpc.Options{NewSocket: n.Socket, ClientBufferSize: clientBuf}
 	if byName && c.cc.name != "" {
 		o.Codec = c.cc.name
+		if decoy {
+			// what DefaultOptions() followed by opts.Codec = name leaves behind: a constructor for another codec
+			o.NewCodec = func() rpc.Codec { return &rpc.XMLCodec{} }
+			if c.cc.name == "json" {
+				o.NewCodec = rpc.NewPBCodec
+			}
+		}
 	} else {
 		o.NewCodec = c.cc.ctor
 	}
 	if c.enc != "" {
 		if byName {
 			o.HeaderEncoder = c.enc
+			if decoy {
+				o.NewHeaderEncoder = func() rpc.Encoder {
+					return encoderByName(map[string]string{"pb": "json", "code": "pb", "json": "code"}[c.enc])
+				}
+			}
 		} else {
 			enc := c.enc
 			o.NewHeaderEncoder = func() rpc.Encoder { return encoderByName(enc) }
@@ -317,9 +337,9 @@ func c12Run(x *X, c c12Cfg, concurrent bool) {
 	srv.SetNoCopy(c.srvNoCopy)
 	srv.SetBufferSize(c.buf)
 	srv.Register(&C12{w})
-	vs.GoLib("Listen", func() { srv.ListenWithOptions("srv", c.opts(n, c.srvByName, 0)) })
+	vs.GoLib("Listen", func() { srv.ListenWithOptions("srv", c.optsDecoy(n, c.srvByName, 0, c.srvDecoy)) })
 	vs.Quiesce()
-	conn, err := rpc.DialWithOptions("srv", c.opts(n, c.cliByName, c.buf))
+	conn, err := rpc.DialWithOptions("srv", c.optsDecoy(n, c.cliByName, c.buf, c.cliDecoy))
 	if err != nil {
 		x.Fail("C12/dial-failed", "%v: %v", c, err)
 		return
@@ -440,6 +460,37 @@ func c12Run(x *X, c c12Cfg, concurrent bool) {
 		for i, d := range c12BoundarySizes {
 			got = append(got, call(f.method, uint64(110+i), d))
 		}
+		// two connections: a handler of the first waits until a call on the second has been served
+		{
+			conn2, err2 := rpc.DialWithOptions("srv", c.optsDecoy(n, c.cliByName, c.buf, c.cliDecoy))
+			two := "ok"
+			if err2 != nil {
+				two = "dial:" + err2.Error()
+			} else {
+				held := ""
+				heldDone := false
+				vs.GoNamed("held-caller", func() { held = call(f.method, 88, 10); heldDone = true })
+				vs.Quiesce()
+				rep := f.newMsg(0, nil)
+				d := mkPayload(89, 0, 14)
+				var e2 error
+				done2 := false
+				vs.GoNamed("second-conn-caller", func() { e2 = conn2.Call("C12."+f.method, f.newMsg(89, d), rep); done2 = true })
+				vs.Quiesce()
+				if !done2 {
+					two = "second-connection-blocked"
+				} else if e2 != nil {
+					two = "E:" + e2.Error()
+				}
+				w.gates[88] = true
+				vs.Quiesce()
+				if !heldDone || held != "ok" {
+					two += "/held:" + held
+				}
+				conn2.Close()
+			}
+			got = append(got, two)
+		}
 	}
 	// the replies are still what they were when the calls returned
 	for _, k := range kept {
@@ -452,6 +503,7 @@ func c12Run(x *X, c c12Cfg, concurrent bool) {
 	for range c12BoundarySizes {
 		want = append(want, "ok")
 	}
+	want = append(want, "ok") // the two-connection step
 	if concurrent {
 		want = []string{"ok", "ok", "ok", "ok", "ok"}
 	}
@@ -462,6 +514,7 @@ func c12Run(x *X, c c12Cfg, concurrent bool) {
 	for i := range c12BoundarySizes {
 		execWant[byte(110+i)] = 1
 	}
+	execWant[88], execWant[89] = 1, 1
 	if !(f.alias && (c.srvNoCopy || c.cliNoCopy)) {
 		execWant[30], execWant[31] = 1, 1
 	}
@@ -633,4 +686,29 @@ func c12HighSeq(x *X) {
 
 func init() {
 	register(&Scenario{Prop: "C12", Name: "c12/matrix-high-sequence-numbers", Quick: []Bound{{0, 0}}, Thorough: []Bound{{0, 0}}, Body: c12HighSeq, SeqBases: []uint64{254, 16382, 1<<32 - 2}, MinHB: 1, MaxSteps: 200000, BudgetQ: 20})
+}
+
+// Options that carry a registered name AND a constructor for something else (what
+// DefaultOptions() followed by opts.Codec = "pb" produces): the name decides, for the body codec
+// and for the header encoder, on the listening and on the dialling side alike.
+func c12NameAndConstructor(x *X) {
+	var c c12Cfg
+	c.enc = []string{"pb", "code", "json"}[x.Choose(3)]
+	c.cc = c12Codecs[x.Choose(3)] // the codecs that have registered names
+	c.srvByName, c.cliByName = true, true
+	switch x.Choose(3) {
+	case 0:
+		c.srvDecoy = true
+	case 1:
+		c.cliDecoy = true
+	case 2:
+		c.srvDecoy, c.cliDecoy = true, true
+	}
+	c.buf = 1000
+	c12Run(x, c, false)
+	x.Outcome("ok")
+}
+
+func init() {
+	register(&Scenario{Prop: "C12", Name: "c12/options-name-and-constructor", Quick: []Bound{{0, 0}}, Thorough: []Bound{{0, 0}}, Body: c12NameAndConstructor, MinHB: 1, MaxSteps: 200000, BudgetQ: 15})
 }
